@@ -1,6 +1,6 @@
 (* Correspondence for C15. input = [kind; a; b] (or one value), observation = what Rust's operators answered. *)
-From Coq Require Import List ZArith Bool.
-From UEC Require Import Base.Wire Ec.Order.
+From Coq Require Import List ZArith Bool Floats.
+From UEC Require Import Base.Wire Base.F64 Ec.Order.
 Import ListNotations.
 Local Open Scope Z_scope.
 
@@ -58,8 +58,16 @@ Definition model (t : tree) : option (list Z) :=
   | _ => None
   end.
 
+(* f64 results, as bit patterns: the total is the left-to-right sum. Rust's `Sum for f64` starts from -0.0
+   (from +0.0 in older releases): either start is "the sum of the per-case results in the order given" *)
+Definition judge_float (l o : list Z) : bool :=
+  zlist_eqb o (bits (ftotal (fzero true) (map of_bits l)) :: l) || zlist_eqb o (bits (ftotal (fzero false) (map of_bits l)) :: l).
+
 Definition judge (t : tree) : option (list Z) :=
   match t with
+  | L [L [A 13; A _; l]; o] => olet l := tlist tZ l in olet o := tlist tZ o in
+      if forallb (fun b => (0 <=? b) && (b <? 2^64) && (bits (of_bits b) =? b)) l
+      then Some [if judge_float l o then 0 else 2] else None
   | L [i; o] => olet m := model i in olet o := tlist tZ o in Some [if zlist_eqb m o then 0 else 2]
   | _ => None
   end.
